@@ -28,8 +28,11 @@ CONSTANTS
   StringSlotLax,   \* TRUE: cimvalue(v, 'string') returns non-strings unchanged
                    \*   (pinned tree); FALSE: non-strings are rejected
   RangeCheck,      \* FALSE: regression variant without the range check
-  AnyCimIntAsIs    \* TRUE: regression variant - cimvalue returns any CIMInt
+  AnyCimIntAsIs,   \* TRUE: regression variant - cimvalue returns any CIMInt
                    \*   object unchanged (isinstance(value, CIMInt))
+  ArrayHeadShortcut \* TRUE: regression variant - cimvalue returns a list
+                   \*   unchanged when its FIRST item already has the class
+                   \*   of the requested numeric / datetime type
 
 F(name, holds) == IF holds THEN {} ELSE {name}
 
@@ -268,4 +271,125 @@ StoreDrift(e) ==
        \cup F("int.stored-value:" \o e.vc \o "->" \o e.dt,
               e.out # "stored" \/ r.out # "stored" \/ ~e.hasv \/ ~r.hasv
               \/ e.sv = r.sv)
+
+---------------------------------------------------------------------------
+(* ARRAY VALUES WHOSE ITEMS COME FROM DIFFERENT VALUE CLASSES               *)
+(*                                                                         *)
+(* "a value given to a typed property, qualifier, parameter or cimvalue()  *)
+(*  is stored as exactly that CIM type" - for an array-typed slot the      *)
+(* value is a list and EVERY item is an item of the declared type.  An     *)
+(* array input is a sequence of items [vc, v]; relative to the declared    *)
+(* type an item is "settled" (already an object of exactly the declared    *)
+(* type: nothing to convert) or "other" (any other scalar value class:     *)
+(* plain int in / out of range, another CIM integer type, string, float,   *)
+(* NULL, ...).  The table has the shapes <<other>>, <<settled, other>>,    *)
+(* <<other, settled>>: position and neighbourhood of the item that still   *)
+(* has to be converted or rejected are dimensions of the input space.      *)
+ArrContainers == Containers \ {"ctor"}
+ArrItemVC == (ValueClasses \ (CtorOnlyVC \cup {"list"}))
+Item(vc, v) == [vc |-> vc, v |-> v]
+
+SettledVC(dt) ==
+  CASE dt \in IntTypes -> "ci:" \o dt
+    [] dt \in {"string", "char16"} -> "str10"
+    [] dt = "boolean" -> "bool"
+    [] dt = "datetime" -> "cimdatetime"
+    [] dt = "real32" -> "real32obj"
+    [] dt = "real64" -> "real64obj"
+
+(* values of interest for an item offered to a slot of type dt: both sides *)
+(* of both range boundaries of dt, 0 and 1                                 *)
+ArrValues(dt) ==
+  {V("Z", 0), V("Z", 1)} \cup
+  (IF dt \in IntTypes
+   THEN {MinOf[dt], V(MinOf[dt].a, MinOf[dt].d - 1),
+         MaxOf[dt], V(MaxOf[dt].a, MaxOf[dt].d + 1)}
+   ELSE {})
+
+ItemOk(dt, it) == /\ it.vc \in ArrItemVC /\ IsVal(it.v)
+                  /\ Applicable("cimvalue", dt, it.vc, it.v)
+ArrItems(dt) == {it \in {Item(vc, v) : vc \in ArrItemVC, v \in ArrValues(dt)} :
+                   ItemOk(dt, it)}
+SettledItems(dt) ==
+  {it \in ArrItems(dt) : it.vc = SettledVC(dt) /\ it.v = V("Z", 1)}
+ArrShapes(dt) ==
+  {<<o>> : o \in ArrItems(dt)}
+  \cup {<<s, o>> : s \in SettledItems(dt), o \in ArrItems(dt)}
+  \cup {<<o, s>> : s \in SettledItems(dt), o \in ArrItems(dt)}
+
+(* REQUIREMENT for one observed array vector e:                             *)
+(*   c, dt, items        the input (items: sequence of [vc, v])             *)
+(*   out                 "stored" | exception class name                    *)
+(*   islist              the stored object is a list                        *)
+(*   sts, hasvs, svs     per stored item: class name, is an integer object, *)
+(*                       its value                                          *)
+ArrFails(e) ==
+  F("Trace.InputInTable",
+    /\ e.c \in ArrContainers /\ e.dt \in DeclTypes /\ Len(e.items) >= 1
+    /\ \A i \in DOMAIN e.items : ItemOk(e.dt, e.items[i]))
+  \cup
+  F("Store.RejectedOnlyWithTypeErrorOrValueError",
+    e.out \in {"stored", "TypeError", "ValueError"})
+  \cup
+  (IF e.out # "stored" THEN {} ELSE
+   LET same == /\ e.islist /\ Len(e.sts) = Len(e.items)
+               /\ Len(e.hasvs) = Len(e.sts) /\ Len(e.svs) = Len(e.sts)
+       ints == IF same THEN {i \in DOMAIN e.sts : e.sts[i] \in IntClasses}
+               ELSE {}
+   IN
+     (* a list of the same length, every item exactly the declared type *)
+     F("Store.ExactType",
+       /\ same
+       /\ \A i \in DOMAIN e.items :
+            \/ e.sts[i] = ClassOf[e.dt]
+            \/ e.items[i].vc = "none" /\ e.sts[i] = "NoneType")
+     \cup
+     F("Trace.StoredValueClassified",
+       \A i \in ints : e.hasvs[i] /\ IsVal(e.svs[i]))
+     \cup
+     F("Int.InRange",
+       \A i \in ints : ~(e.hasvs[i] /\ IsVal(e.svs[i])) \/
+                       Accept(TypeOfClass(e.sts[i]), e.svs[i]))
+     \cup
+     F("Store.ValueKept",
+       \A i \in ints : ~(e.items[i].vc \in ExactVC /\ e.hasvs[i]) \/
+                       e.svs[i] = e.items[i].v))
+
+(* CODE-SHAPED: the "Arrays" branch of cimvalue() maps cimvalue over the    *)
+(* items; the first item that is rejected decides the exception            *)
+ArrStored(sts, hasvs, svs) ==
+  [out |-> "stored", islist |-> TRUE, sts |-> sts, hasvs |-> hasvs,
+   svs |-> svs]
+ArrRaised(x) == [out |-> x, islist |-> FALSE, sts |-> <<>>, hasvs |-> <<>>,
+                 svs |-> <<>>]
+OwnClassTypes == IntTypes \cup {"real32", "real64", "datetime"}
+
+ImplArr(dt, items) ==
+  LET D == DOMAIN items
+      rs == [i \in D |-> Scalar(dt, items[i].vc, items[i].v)]
+      bad == {i \in D : rs[i].out # "stored"}
+  IN IF /\ ArrayHeadShortcut /\ dt \in OwnClassTypes
+        /\ PyClass(items[1].vc) = ClassOf[dt]
+     THEN ArrStored([i \in D |-> PyClass(items[i].vc)],
+                    [i \in D |-> items[i].vc \in CiClasses \cup {"int", "bool"}],
+                    [i \in D |-> items[i].v])
+     ELSE IF bad # {}
+     THEN ArrRaised(rs[CHOOSE i \in bad : \A j \in bad : i <= j].out)
+     ELSE ArrStored([i \in D |-> rs[i].st], [i \in D |-> rs[i].hasv],
+                    [i \in D |-> rs[i].sv])
+
+ImplArrEvent(c, dt, items) ==
+  LET r == ImplArr(dt, items) IN
+  [c |-> c, dt |-> dt, items |-> items, out |-> r.out, islist |-> r.islist,
+   sts |-> r.sts, hasvs |-> r.hasvs, svs |-> r.svs]
+
+ArrDrift(e) ==
+  IF ArrFails(e) \cap {"Trace.InputInTable"} # {} THEN {}
+  ELSE LET r == ImplArr(e.dt, e.items) IN
+       F("arr.outcome:" \o e.dt, e.out = r.out)
+       \cup F("arr.stored-classes:" \o e.dt,
+              e.out # "stored" \/ r.out # "stored" \/ e.sts = r.sts)
+       \cup F("arr.stored-values:" \o e.dt,
+              e.out # "stored" \/ r.out # "stored" \/ e.hasvs # r.hasvs
+              \/ \A i \in DOMAIN e.svs : ~e.hasvs[i] \/ e.svs[i] = r.svs[i])
 =============================================================================
